@@ -229,3 +229,13 @@ impl ShardOut {
         })
     }
 }
+
+/// Both public entry points for incoming messages do the same work: the harness alternates
+/// between them (deterministically) so that neither is left unobserved.
+pub fn use_timed_entry_point() -> bool {
+    use std::sync::atomic::{AtomicU64, Ordering};
+    static N: AtomicU64 = AtomicU64::new(0);
+    let n = N.fetch_add(1, Ordering::Relaxed);
+    // irregular pattern, so that "first delivery" and "retry" do not always use different ones
+    (n.wrapping_mul(0x9E37_79B9_7F4A_7C15) >> 61) < 3
+}
